@@ -63,6 +63,7 @@ def score_table_contract(P):
         f"{OR}:_get_score_table",
         params={E_: TSList(TSObj("DynamicObject")), G_: TSList(TSObj("DynamicObject"))},
         returns=lambda it, cf: _fresh_table(it),
+        requires=TABLE_REQUIRES(by_mode_expr="(matching_method_module is IOU2dMatching or matching_method_module is IOU3dMatching)"),
         ensures=E(
             "shape", f"rows(result) == len({E_}) and cols(result) == len({G_})",
             "cell_is_nan_iff_pair_not_matchable", f"forall(r, 0, len({E_}), forall(c, 0, len({G_}), tnan(result, r, c) == (not {valid(f'{E_}[r]', f'{G_}[c]')})))",
@@ -70,6 +71,85 @@ def score_table_contract(P):
                                          f"tval(result, r, c) == {score(f'{E_}[r]', f'{G_}[c]')} and tflag(result, r, c) == {compat(f'{E_}[r]', f'{G_}[c]')})))",
             "no_flag_without_score", f"forall(r, 0, len({E_}), forall(c, 0, len({G_}), implies(tnan(result, r, c), not tflag(result, r, c))))",
         ))
+
+
+CLASSES = {"CENTERDISTANCE": "CenterDistanceMatching", "PLANEDISTANCE": "PlaneDistanceMatching", "IOU2D": "IOU2dMatching", "IOU3D": "IOU3dMatching"}
+
+
+def matching_score_contracts(P):
+    """assumed here (C06 is about what the scores mean): a matching score is a function of the two objects and the transforms,
+    and is a number whenever there is a ground truth"""
+    out = {}
+    for mode, cls in CLASSES.items():
+        fi = P.index.lookup(f"{OM}:{cls}._calculate_matching_score")
+        out[fi.fq] = Contract(f"{OM}:{cls}._calculate_matching_score", params={}, returns=Opt(TReal()),
+                              ensures=E("number_iff_ground_truth", "(result is None) == (ground_truth_object is None)",
+                                        "function_of_the_pair", f"implies(result is not None, result == uf_real('mscore_{mode}', estimated_object, ground_truth_object, transforms))"))
+    return out
+
+
+def score_table_definitions(mode):
+    """what the cells of the score table mean (from the statement): a pair is matchable iff both objects are in the same frame and,
+    when a radius is configured for the ground truth's label (first matching target), the score beats it"""
+    L = lambda g: f"{g}.semantic_label.label"
+    ms = lambda e, g: f"uf_real('mscore_{mode}', {e}, {g}, transforms)"
+    better = (lambda a, b: f"({a}) > ({b})") if mode.startswith("IOU") else (lambda a, b: f"({a}) < ({b})")
+    # radius configured for the ground truth's label: the value get_label_threshold returns (a function of the label and the two
+    # lists; C10 verifies that it is the entry of the first matching target, None if there is none)
+    thr_none = lambda g: f"uf_bool('radius_none', {L(g)}, target_labels, matchable_thresholds)"
+    thr = lambda g: f"uf_real('radius', {L(g)}, target_labels, matchable_thresholds)"
+    radius_ok = lambda e, g: f"({thr_none(g)} or {better(ms(e, g), thr(g))})"
+    valid = lambda e, g: f"(({e}.frame_id is {g}.frame_id) and {radius_ok(e, g)})"
+    same = lambda e, g: f"({L(e)} is {L(g)})"
+    compat = lambda e, g: (f"(({L(g)} is AutowareLabel.FP) or (matching_label_policy is MatchingLabelPolicy.ALLOW_ANY) or {same(e, g)} or "
+                           f"((matching_label_policy is MatchingLabelPolicy.ALLOW_UNKNOWN) and ({L(e)} is AutowareLabel.UNKNOWN)))")
+    return valid, compat, ms
+
+
+def TABLE_REQUIRES(mode=None, by_mode_expr=None):
+    r = E("one_radius_per_target_label", "implies(target_labels is not None and matchable_thresholds is not None, len(matchable_thresholds) == len(target_labels))")
+    rng = "implies(matchable_thresholds is not None, forall(j, 0, len(matchable_thresholds), 0 <= matchable_thresholds[j] and matchable_thresholds[j] <= 1))"
+    if mode is not None and mode.startswith("IOU"):
+        r.append(("iou_radius_in_unit_interval", rng))
+    if by_mode_expr is not None:
+        r.append(("iou_radius_in_unit_interval", f"implies({by_mode_expr}, {rng})"))
+    return r
+
+
+def score_table_verified_contract(P, mode):
+    idx = P.index
+    valid, compat, ms = score_table_definitions(mode)
+    DO = TSObj("DynamicObject")
+    AL = TEnum(idx.lookup("common.label:AutowareLabel"))
+    cell = lambda t, r, c: (f"(tnan({t}, {r}, {c}) == (not {valid(f'{E_}[{r}]', f'{G_}[{c}]')})) and "
+                            f"implies(not tnan({t}, {r}, {c}), tval({t}, {r}, {c}) == {ms(f'{E_}[{r}]', f'{G_}[{c}]')} and "
+                            f"tflag({t}, {r}, {c}) == {compat(f'{E_}[{r}]', f'{G_}[{c}]')}) and implies(tnan({t}, {r}, {c}), not tflag({t}, {r}, {c}))")
+    untouched = (f"len({E_}) == old(len({E_})) and len({G_}) == old(len({G_})) and forall(k, 0, len({E_}), {E_}[k] is old({E_}[k])) and "
+                 f"forall(k, 0, len({G_}), {G_}[k] is old({G_}[k]))")
+    shape = f"rows(score_table) == len({E_}) and cols(score_table) == len({G_})"
+    blank = lambda r, c: f"tnan(score_table, {r}, {c}) and not tflag(score_table, {r}, {c})"
+    outer = E("shape", shape,
+              "finished_rows", f"forall(r, 0, i, forall(c, 0, len({G_}), {cell('score_table', 'r', 'c')}))",
+              "untouched_rows", f"forall(r, i, len({E_}), forall(c, 0, len({G_}), {blank('r', 'c')}))",
+              "inputs_untouched", untouched)
+    inner = E("shape", shape + f" and 0 <= i and i < len({E_})",
+              "finished_rows", f"forall(r, 0, i, forall(c, 0, len({G_}), {cell('score_table', 'r', 'c')}))",
+              "finished_cells_of_this_row", f"forall(c, 0, j, {cell('score_table', 'i', 'c')})",
+              "untouched_cells_of_this_row", f"forall(c, j, len({G_}), {blank('i', 'c')})",
+              "untouched_rows", f"forall(r, i + 1, len({E_}), forall(c, 0, len({G_}), {blank('r', 'c')}))",
+              "inputs_untouched", untouched)
+    return Contract(
+        f"{OR}:_get_score_table",
+        params={E_: TSList(DO), G_: TSList(DO), "matching_label_policy": TEnum(idx.lookup(f"{OM}:MatchingLabelPolicy")),
+                "matching_method_module": (lambda it, mode=mode: VClass(idx.lookup(f"{OM}:{CLASSES[mode]}"))),
+                "target_labels": Opt(TSList(AL)), "matchable_thresholds": Opt(TSList(TReal())),
+                "transforms": lambda it: VOpaque("transformdict", it.ctx.fresh("transforms", I))},
+        locals={"is_same_frame_id": TBool(), "is_label_ok": TBool()},
+        requires=TABLE_REQUIRES(mode),
+        loops={1: LoopSpec(index="i", invariants=outer), 2: LoopSpec(index="j", invariants=inner)},
+        ensures=E("shape", f"rows(result) == len({E_}) and cols(result) == len({G_})",
+                  "every_cell_encodes_the_pair", f"forall(r, 0, len({E_}), forall(c, 0, len({G_}), {cell('result', 'r', 'c')}))",
+                  "inputs_untouched", untouched))
 
 
 def _fresh_table(it):
@@ -103,6 +183,33 @@ def greedy_invariants(table_clause, valid):
     ), untouched
 
 
+def _glt_contract(P):
+    AL = TEnum(P.index.lookup("common.label:AutowareLabel"))
+    L0 = "semantic_label.label"
+    first0 = lambda j: f"(target_labels[{j}] is {L0} and forall(m, 0, {j}, target_labels[m] is not {L0}))"
+    return Contract("common.threshold:get_label_threshold",
+                    params={"semantic_label": TSObj("Label"), "target_labels": Opt(TSList(AL)), "threshold_list": Opt(TSList(TReal()))},
+                    returns=Opt(TReal()),
+                    requires=E("one_threshold_per_label", "implies(target_labels is not None and threshold_list is not None, len(threshold_list) == len(target_labels))"),
+                    ensures=E("none_iff_no_threshold_for_this_label",
+                              f"(result is None) == (target_labels is None or threshold_list is None or not exists(j, 0, len(target_labels), target_labels[j] is {L0}))",
+                              "some_first_matching_target_gives_it",
+                              f"implies(result is not None, exists(j, 0, len(target_labels), {first0('j')} and result == threshold_list[j]))",
+                              "threshold_of_first_matching_target",
+                              f"implies(result is not None, forall(j, 0, len(target_labels), implies({first0('j')}, result == threshold_list[j])))"))
+
+
+def _glt_named(P):
+    """get_label_threshold as a named function of (label, targets, thresholds); its first-matching-target meaning is C10's contract"""
+    L0 = "semantic_label.label"
+    return Contract("common.threshold:get_label_threshold", params={}, returns=Opt(TReal()),
+                    requires=E("one_threshold_per_label", "implies(target_labels is not None and threshold_list is not None, len(threshold_list) == len(target_labels))"),
+                    ensures=E("none_flag", f"(result is None) == uf_bool('radius_none', {L0}, target_labels, threshold_list)",
+                              "value", f"implies(result is not None, result == uf_real('radius', {L0}, target_labels, threshold_list))",
+                              "none_without_lists", "implies(target_labels is None or threshold_list is None, result is None)",
+                              "is_an_entry_of_the_list", "implies(result is not None, exists(j, 0, len(threshold_list), result == threshold_list[j]))"))
+
+
 def build(P):
     idx = P.index
     models(P)
@@ -134,7 +241,8 @@ def build(P):
         returns=RT,
         locals={RES: RT, EW: TSList(DO), GW: TSList(DO)},
         requires=E("estimates_are_a_set", f"forall(k, 0, len({E_}), uf_int('posE', {E_}[k]) == k)",
-                   "ground_truths_are_a_set", f"forall(k, 0, len({G_}), uf_int('posG', {G_}[k]) == k)"),
+                   "ground_truths_are_a_set", f"forall(k, 0, len({G_}), uf_int('posG', {G_}[k]) == k)") +
+                 TABLE_REQUIRES(by_mode_expr="(matching_mode is MatchingMode.IOU2D or matching_mode is MatchingMode.IOU3D)"),
         loops={1: LoopSpec(index="i", invariants=inv1), 2: LoopSpec(index="i", invariants=inv2)},
         ensures=E(
             "estimates_come_from_the_input", f"forall(k, 0, len(result), result[k] is not None and 0 <= uf_int('posE', {est('k')}) and uf_int('posE', {est('k')}) < len({E_}) and {est('k')} is {E_}[uf_int('posE', {est('k')})])",
@@ -143,6 +251,7 @@ def build(P):
             "each_ground_truth_in_at_most_one_result", f"forall(k, 0, len(result), forall(m, 0, len(result), implies(k < m and {gt('k')} is not None, {gt('k')} is not {gt('m')})))",
             "every_estimate_in_exactly_one_result_outside_fp_validation", f"implies(not {FPV}, len(result) == len({E_}))",
             "unpaired_estimates_dropped_in_fp_validation", f"implies({FPV}, forall(k, 0, len(result), {gt('k')} is not None))",
+            "every_pair_is_matchable", f"forall(k, 0, len(result), implies({gt('k')} is not None, " + macros("matching_label_policy, local('matching_method_module', None), target_labels, matchable_thresholds, transforms")[0](est('k'), gt('k')) + "))",
             "inputs_untouched", untouched,
         ))
     fp_c = fp_results_contract()
@@ -162,7 +271,14 @@ def build(P):
             c.params["matching_mode"] = VEnum(MM, mi)
             c.requires = list(c_main.requires) + [("task_family", FPV if tasks else f"not {FPV}")]
             P.verify(f"{OR}:get_object_results", name=f"get_object_results[3-D, {mode}, {fam}]", contract=c, extra_contracts=extra)
-    # an unsupported matching mode is rejected
+    # ---------------------------------------------------------------- what the table cells mean: _get_score_table per matching class
+    glt = None
+    import contracts.C10 as C10m
+    for mode in CLASSES:
+        c = score_table_verified_contract(P, mode)
+        ex = dict(matching_score_contracts(P))
+        ex[idx.lookup("common.threshold:get_label_threshold").fq] = _glt_named(P)
+        P.verify(f"{OR}:_get_score_table", name=f"_get_score_table[{mode}]", contract=c, extra_contracts=ex)
 
     P.trust("numpy score-table operations as assumed contracts (externals/nptable.py); tie-breaking of nanargmin/nanargmax unspecified")
     P.assume("the estimate list and the ground-truth list each contain pairwise distinct objects (the property's 'sets')")
